@@ -720,6 +720,42 @@ def common_type_programs():
     return out
 
 
+def common_type_value_independence():
+    """the common type depends on the two TYPES only - not on the operands' VALUES, on the operator, on how an operand came
+    about (a routine's result, a statement-expression, a local that was incremented before) or on which arm it is:
+    literal x literal under + - * / with small/large, positive/negative results (folded at compile time), every suffix pair;
+    ?: with a call result / statement-expression / incremented local in either arm against registers of every rank"""
+    out = []
+    L = lambda txt: lit(txt)
+    sfx = ("", "U", "LL", "ULL")
+    for s1 in sfx:
+        for s2 in sfx:
+            for (x, y) in ((1, 2), (2, 1), (3, 3), (7, 2), (0, 5)):
+                for op in ("+", "-", "*", "/"):
+                    if op == "/" and y == 0:
+                        continue
+                    e = ("bin", op, L(f"{x}{s1}"), L(f"{y}{s2}"))
+                    out.append([wr("RddV", e)])
+                    out.append([wr("RdV", ("cmp", ">", e, reg("RsV")))])
+            # a folded operand next to a third one: 3U * (1 - 2)
+            out.append([wr("RddV", ("bin", "*", L("3" + s1), ("bin", "-", L("1" + s2), L("2" + s2))))])
+    u32, one = T["uint32_t"], L("1")
+    v, iv = var("v", "uint32_t"), ("var", "i", (True, 32))
+    hybs = [lambda: call("clz32", reg("RsV")), lambda: call("revbit32", reg("RsV")), lambda: ("bin", "+", call("clz32", reg("RsV")), one),
+            lambda: ("stmtexpr", "", u32, "v", ("bin", "+", v, one), False)]
+    for other in (reg("RssV"), reg("RtV"), ("cast", "uint64_t", T["uint64_t"], reg("RssV")), ("cast", "int16_t", T["int16_t"], reg("RtV")), reg("PvV")):
+        for h in hybs:
+            pre = [decl("uint32_t", "v", reg("RtV"))]
+            out.append(pre + [wr("RddV", ("tern", reg("PuV"), h(), other))])
+            out.append(pre + [wr("RddV", ("tern", reg("PuV"), other, h()))])
+        # a local that was post-incremented before keeps its declared type in a later ?:
+        for order in (0, 1):
+            arms = (iv, other) if order == 0 else (other, iv)
+            out.append([decl("int32_t", "i", reg("RsV")), wr("RdV", ("post", "i", "++", (True, 32))), wr("RddV", ("tern", reg("PuV"), *arms))])
+            out.append([decl("int32_t", "i", reg("RsV")), wr("RddV", ("tern", reg("PuV"), *arms))])
+    return out
+
+
 def explicit_rw_mixed(ast) -> bool:
     reads, writes = set(), set()
     gen._regs(list(ast), reads, writes)
